@@ -38,8 +38,10 @@ Definition st_default : settings :=
 Inductive aspect :=
 | ADense                    (* the dense matrix itself *)
 | AChol (upper : bool)      (* triangular factor: L L^T = A (lower) / U^T U = A (upper), honestly labelled *)
-| ARoot                     (* Root/CholLinearOperator R R^T = A; a Triangular-labelled root IS triangular *)
+| ARoot                     (* Root/CholLinearOperator R R^T = A; a Triangular-labelled root IS (lower) triangular *)
 | ARootInv                  (* R R^T = A^-1, same labelling condition *)
+| AFactor                   (* the .root of a valid ARoot: a matrix R, R R^T = A, honestly labelled *)
+| AInvFactor                (* the .root of a valid ARootInv *)
 | AEig (vecs : bool)        (* (evals, evecs or None): A = Q diag(w) Q^T *)
 | AEvals                    (* a bare eigenvalue tensor *)
 | ASvd                      (* (U, S, V): A = U diag(S) V^T *)
@@ -496,13 +498,17 @@ Definition deriv_mat (d : deriv) (A : Mat) : Mat :=
 Fixpoint alloc_all (l : list obj) : H unit :=
   match l with [] => ret tt | o :: r => alloc o ;;; alloc_all r end.
 
-(* the operator is constructed first (children, then the result), then — add_low_rank / cat_rows only — the
-   roots of SELF are fetched (through self's cache) and the updated factors are written into the NEW cache *)
-Definition run_deriv (st : settings) (i : nat) (d : deriv) (kids : list newobj) (res_ : newobj) : H nat :=
+(* the operator is constructed first (children, then the result), then - add_low_rank / cat_rows only - the
+   roots of SELF are fetched (through self's cache).  Returns the new object's id and the two roots used. *)
+Definition deriv_roots (st : settings) (i : nat) (d : deriv) (kids : list newobj) (res_ : newobj)
+  : H (nat * option (Val * Val)) :=
   with_obj i (fun o =>
     alloc_all (map (fun x => mk_obj x (no_mat x)) kids) ;;;
     j <- alloc (mk_obj res_ (deriv_mat d (o_mat o))) ;;
     let fuel := S i in
+    (* has_roots = any(_is_in_cache_ignore_args(self, key) for key in ("root_decomposition", "root_inv_decomposition")) *)
+    let has_roots := b1 <- in_cache_bare i "root_decomposition" ;;
+                     if b1 then ret true else in_cache_bare i "root_inv_decomposition" in
     match d with
     | DAddLowRank B m1 m2 gen =>
         (* a SumLinearOperator is rebuilt with the new term and, if small, densified: new_linear_op.to_dense()
@@ -511,35 +517,46 @@ Definition run_deriv (st : settings) (i : nat) (d : deriv) (kids : list newobj) 
          then (fix kids (l : list nat) : H unit :=
                  match l with [] => ret tt | c :: r => to_dense fuel c ;;; kids r end) (pf_td_kids (o_pf o))
          else ret tt) ;;;
-        (* has_roots = any(_is_in_cache_ignore_args(self, key) for key in ("root_decomposition", "root_inv_decomposition")) *)
-        b1 <- in_cache_bare i "root_decomposition" ;;
-        has_roots <- (if b1 then ret true else in_cache_bare i "root_inv_decomposition") ;;
-        if negb gen && negb has_roots then ret j else
+        hr <- has_roots ;;
+        if negb gen && negb hr then ret (j, None) else
         L <- root_decomposition st fuel i [] [("method", m1)] ;;
         Mi <- root_inv_decomposition st fuel i [] [("method", m2)] ;;
-        let '(nr, ni) := k_lr_update K (v_root K L) (v_root K Mi) B (v_is_tri K (v_root K L)) in
-        add_to_cache_m j "root_decomposition" nr [] [] ;;;
-        add_to_cache_m j "root_inv_decomposition" ni [] [] ;;;
-        ret j
+        ret (j, Some (L, Mi))
     | DCatRows B D k gen geninv =>
-        b1 <- in_cache_bare i "root_decomposition" ;;
-        has_roots <- (if b1 then ret true else in_cache_bare i "root_inv_decomposition") ;;
-        if negb gen && negb has_roots then ret j else
+        hr <- has_roots ;;
+        if negb gen && negb hr then ret (j, None) else
         E <- root_decomposition st fuel i [] [] ;;
         R <- root_inv_decomposition st fuel i [] [] ;;
-        (* schur_root = to_linear_operator(schur).root_decomposition().root : a k x k DenseLinearOperator under the
-           CURRENT settings: 1x1 -> Root(sqrt); cholesky -> Triangular; lanczos -> dense *)
-        let schur_tri := negb (k =? 1) && ((k <=? st_max_chol st) || negb (st_fc_root st)) in
-        u <- lift (k_cat_update K (v_root K E) (v_root K R) B D schur_tri geninv) ;;
-        let '(nr, ni) := u in
-        match ni with
-        | Some x => add_to_cache_m j "root_inv_decomposition" x [] [] ;;; ret tt
-        | None => ret tt
-        end ;;;
-        add_to_cache_m j "root_decomposition" nr [] [] ;;;
-        ret j
-    | _ => ret j
+        ret (j, Some (E, R))
+    | _ => ret (j, None)
     end).
+
+(* ... and the updated factors are written into the NEW object's cache *)
+Definition deriv_finish (st : settings) (d : deriv) (x : nat * option (Val * Val)) : H nat :=
+  let (j, roots) := x in
+  match roots, d with
+  | Some (L, Mi), DAddLowRank B _ _ _ =>
+      let '(nr, ni) := k_lr_update K (v_root K L) (v_root K Mi) B (v_is_tri K (v_root K L)) in
+      add_to_cache_m j "root_decomposition" nr [] [] ;;;
+      add_to_cache_m j "root_inv_decomposition" ni [] [] ;;;
+      ret j
+  | Some (E, R), DCatRows B D k _ geninv =>
+      (* schur_root = to_linear_operator(schur).root_decomposition().root : a k x k DenseLinearOperator under the
+         CURRENT settings: 1x1 -> Root(sqrt); cholesky -> Triangular; lanczos -> dense *)
+      let schur_tri := negb (k =? 1) && ((k <=? st_max_chol st) || negb (st_fc_root st)) in
+      u <- lift (k_cat_update K (v_root K E) (v_root K R) B D schur_tri geninv) ;;
+      let '(nr, ni) := u in
+      match ni with
+      | Some x => add_to_cache_m j "root_inv_decomposition" x [] [] ;;; ret tt
+      | None => ret tt
+      end ;;;
+      add_to_cache_m j "root_decomposition" nr [] [] ;;;
+      ret j
+  | _, _ => ret j
+  end.
+
+Definition run_deriv (st : settings) (i : nat) (d : deriv) (kids : list newobj) (res_ : newobj) : H nat :=
+  x <- deriv_roots st i d kids res_ ;; deriv_finish st d x.
 
 Inductive event :=
 | EQuery (i : nat) (q : query)
